@@ -7,7 +7,7 @@ from ..fold import Folder, Record, EnumMember, Ref, is_unknown
 from ..absint import Interp, Hooks, State, K, Sym, Obj, Exc, NONE, ListVal, wrap
 from ..report import Check
 from .. import util
-from .common import ForkHooks, labels_of, check_first_error_wins
+from .common import ForkHooks, labels_of, check_first_error_wins, suite_reading_method
 
 SP = 'exactly_lib.test_suite.reporters.simple_progress_reporter'
 JU = 'exactly_lib.test_suite.reporters.junit'
@@ -423,7 +423,7 @@ def clause_e(c: Check):
                  'an invalid suite is reported with exit code %s' % util.describe(p.val), rr.loc())
     # whole hierarchy is read before anything runs: reading is recursive inside the reader (no laziness)
     sfr = ix.cls(SHR + ':_SingleFileReader')
-    call = ix.class_member(sfr, '__call__')
+    call = suite_reading_method(ix, c.require)
     lazy = [n for n in walk_own(call.node) if isinstance(n, ast.Call) and isinstance(n.func, ast.Name)
             and n.func.id == 'map' and not (isinstance(parent(n), ast.Call) and isinstance(parent(n).func, ast.Name)
                                             and parent(n).func.id in ('list', 'tuple'))]
